@@ -5,7 +5,7 @@ set -u
 SEED=$1; shift
 export GOFLAGS=-mod=mod GOPROXY=off GOSUMDB=off GOTOOLCHAIN=local
 W=/tmp/seedwt-$$
-git -C /repo worktree add -q --detach $W HEAD || exit 2
+git -C /repo worktree add -q --detach $W ${BASE:-HEAD} || exit 2
 trap 'git -C /repo worktree remove --force $W >/dev/null 2>&1; rm -rf $W' EXIT
 ( cd $W && git apply $SEED/patch.diff ) || { echo "PATCH DOES NOT APPLY"; exit 2; }
 ( cd $W && go build ./... && go test -vet=off -count=1 ./... 2>&1 | grep -v '^ok\|no test files' | head -5 )
